@@ -251,6 +251,7 @@ func runScenarios(scs []scenario, bound, maxExecs, shard, shards int) result {
 		}
 		if e.Capped {
 			res.Capped++
+			res.Extra["capped:"+sc.name] = e.Executions
 		}
 		if len(e.Outcomes) > 1 {
 			res.MultiOutcome++
@@ -309,6 +310,10 @@ func main() {
 	switch prop {
 	case "c12":
 		res = runC12(tier, shard, shards)
+	case "c13":
+		res = runC13(tier, shard, shards)
+	case "c14":
+		res = runC14(tier, shard, shards)
 	case "conform":
 		maxOps := 1
 		if tier == "thorough" {
@@ -319,5 +324,6 @@ func main() {
 		fmt.Fprintln(os.Stderr, "unknown", prop)
 		os.Exit(2)
 	}
-	json.NewEncoder(os.Stdout).Encode(res)
+	b, _ := json.Marshal(res)
+	fmt.Printf("\nRESULT %s\n", b) // code under test may print to stdout; the result is the line with this prefix
 }
